@@ -544,11 +544,15 @@ func CheckC16(p *Pkg, e *Env, r *res.Result) {
 				}
 			}
 		}
+		// the spec route is served by the spec handler, outside the middlewares, whatever the
+		// method and whatever template could also match the path
 		specURL := p.BasePath + "/" + p.Cfg.ServedSpecName()
-		req := httptest.NewRequest("GET", "http://h.example/", nil)
-		req.URL.Path = specURL
-		if !check("spec-file", k, req, nil) {
-			return
+		for _, m := range []string{"GET", "HEAD", "POST", "PUT", "DELETE", "OPTIONS"} {
+			req := httptest.NewRequest(m, "http://h.example/", nil)
+			req.URL.Path = specURL
+			if !check("spec-file", k, req, nil) {
+				return
+			}
 		}
 	}
 	r.Sample(map[string]any{"templates": templatesOf(p), "schemes": schemeKinds(p.Doc), "stack_lengths": "0..4", "cors": p.Cfg.Cors, "cors_handler_calls": corsCalls}, 5)
